@@ -20,6 +20,7 @@ class Facts:
         self.statics = D['statics']
         self.consts = {c['path']: int(c['val'], 0) for c in D['consts']}
         self.fns = {f['path']: f['meta'] for f in D['fns']}
+        self.matches = {f['path']: f.get('matches') or [] for f in D['fns']}
         self._cfg = {}
 
     def cfg(self, body, with_unwind=False):
